@@ -35,7 +35,9 @@ RULE = ("op lines from one seeded PRNG: seeds 16..64 bytes (+ out-of-range), eve
         "non-trivial when the implementation answered (did not refuse); distinct = distinct (stream, op line)")
 TRUSTED = [
     "HMAC-SHA512 / SHA-256 / RIPEMD-160 of the model are validated against hashlib each run, not verified",
-    "Btc.EC.ops secp256k1 is lawful (Btc.Lawful) — property C01's statement, a named hypothesis here",
+    "SecpCofactorOne (every point of y^2 = x^3 + 7 over the secp256k1 field is killed by n: #E(F_p) = n) is ASSUMED, "
+    "not proved: the one named hypothesis of the `*_cofactor_one` theorems that carry T1/T2/T3 to the executed Btc.EC.ops "
+    "secp256k1 (C01 proves Lawful for `opsSub`, primality of p and n and the non-zero discriminant are proved)",
     "hand-written BIP32 / der_path models (Model/C07) are tied by correspondence only",
     "the invalid-child branches (IL >= n, zero child, infinity) are reached with a stubbed hmac.new on both sides",
 ]
@@ -213,7 +215,8 @@ def impl(line: str) -> str:
         return r if r.startswith("ok") or exact else "err any"
     if op == "bip32.tweaks":
         try:
-            tw = bip32.pub_key_derivation_tweaks(unhx(t[1]), unhx(t[2]), _spell_path(line, pof(t[3])))
+            with mac(t[1]):
+                tw = bip32.pub_key_derivation_tweaks(unhx(t[2]), unhx(t[3]), _spell_path(line, pof(t[4])))
             return "ok " + (",".join(b.hex() for b in tw) if tw else "_")
         except Exception as e:  # noqa: BLE001
             return "err " + kind(e)
@@ -733,6 +736,22 @@ def find_leading_zero_paths(rng, roots, want, tries=4000):
     return out
 
 
+def _o_tweaks_invalid_child(w):
+    """pub_key_derivation_tweaks with the HMAC forced to IL >= n / to the offset that sends the child to infinity:
+    refused with the library's error naming the index, on the bindings arm and on the Python arm alike."""
+    tok = w["mac"]
+    i = int(tok.split(":")[0])
+    with backend(w["serving"]):
+        with mac(tok):
+            try:
+                r = bip32.pub_key_derivation_tweaks(bytes.fromhex(w["key"]), bytes.fromhex(w["cc"]), w["p"])
+            except BTClibValueError as e:
+                return f"invalid child index {i}" in str(e), str(e)[:80]
+            except Exception as e:  # noqa: BLE001
+                return False, f"foreign {type(e).__name__}: {e}"
+    return False, f"answered {len(r)} tweaks"
+
+
 def _o_tweaks(w):
     """pub_key_derivation_tweaks: parent point + (sum of tweaks)·G is the derived public key; each tweak is the
     step's own HMAC left half; a hardened index is refused."""
@@ -759,7 +778,7 @@ def _o_tweaks(w):
 
 
 ORACLES = {
-    "tweaks.sum": _o_tweaks, "refuse.hardened-boundary": _o_boundary, "bip85.leading-zero": _o_bip85_leading_zero,
+    "tweaks.sum": _o_tweaks, "refuse.tweaks-invalid-child": _o_tweaks_invalid_child, "refuse.hardened-boundary": _o_boundary, "bip85.leading-zero": _o_bip85_leading_zero,
     "law.split": _o_split, "law.neuter": _o_neuter, "law.crack": _o_crack,
     "refuse.hardened-pub": _o_hardened_pub, "refuse.depth": _o_depth, "refuse.invalid-child": _o_invalid_child,
     "vectors.bip32": _o_vectors, "path.roundtrip": _o_path_roundtrip, "version.pairing": _o_version_pairing,
@@ -1068,7 +1087,7 @@ def run(ctx):
                               {"x": xtok(x), "acct": xtok(acct), "acct_prv": xtok(acct_prv), "i": i, "serving": serving},
                               nontrivial=i < H)
                 for path in ([i], [0, i], [i, 1], [0, 1, i]):
-                    lines.append(f"bip32.tweaks {hx(x.key)} {hx(x.chain_code)} {ptok(path)}")
+                    lines.append(f"bip32.tweaks _ {hx(x.key)} {hx(x.chain_code)} {ptok(path)}")
         for _ in range(ctx.n(80, 1500)):
             x = rng.choice(pub)
             key, cc = x.key, x.chain_code
@@ -1086,9 +1105,35 @@ def run(ctx):
             p = rand_path(rng, 6, hardened_ok=rng.random() < 0.2)
             if rng.random() < 0.03:
                 p = p + [2**32]
-            lines.append(f"bip32.tweaks {hx(key)} {hx(cc)} {ptok(p)}")
+            lines.append(f"bip32.tweaks _ {hx(key)} {hx(cc)} {ptok(p)}")
         _both(ctx, "bip32.tweaks", lines)
         _both(ctx, "bip32.account-boundary", acc_lines)
+        # the invalid-child branches of pub_key_derivation_tweaks (HMAC forced on both sides, both arms):
+        # IL >= n refused; parent k·G with IL = n - k is the child at infinity, refused with the LIBRARY's error
+        from btclib.curves import bytes_from_point, mult
+        fl = []
+        five_g = bytes_from_point(mult(5))
+        for _ in range(ctx.n(30, 400)):
+            i = rng.choice([0, 5, 77, 1000, H - 1])
+            ir = common.rand_bytes(rng, 32)
+            if rng.random() < 0.4:
+                key, cc, pre, k = five_g, common.rand_bytes(rng, 32), [], 5
+            else:
+                xp = rng.choice([k_ for k_ in prv if k_.depth < 200])
+                pre = [j for j in rand_path(rng, 3, hardened_ok=False) if j != i]
+                k = int.from_bytes(bip32.derive_(xp, pre).key[1:], "big")
+                xq = bip32.xpub_from_xprv_(xp)
+                key, cc = xq.key, xq.chain_code
+            post = [j for j in rand_path(rng, 2, hardened_ok=False) if j != i]
+            il = rng.choice([N - k, N - k, N - k, N, N + 1, 2**256 - 1, N - 1, (N - k + 1) % N, 1, 0])
+            tok = f"{i}:{(il.to_bytes(32, 'big') + ir).hex()}"
+            path = pre + [i] + post
+            fl.append(f"bip32.tweaks {tok} {hx(key)} {hx(cc)} {ptok(path)}")
+            if il >= N or il == N - k:
+                for serving in (False, True):
+                    ctx.check("refuse.tweaks-invalid-child", {"key": key.hex(), "cc": cc.hex(), "p": path, "mac": tok,
+                                                              "serving": serving})
+        _both(ctx, "bip32.tweaks-invalid-child", fl)
 
     def s13_bip85_leading_zero():  # bip85 on children whose private key begins with a zero byte
         roots = [k for k in prv if k.depth < 200]
